@@ -101,6 +101,14 @@ func CompileWithOptions(source string, opts CompileOptions) ([]byte, error) {
 		}
 	}
 
+	// Resolve pipeline-overridable constants to their defaults: the one-call API
+	// has no way to supply values, and the SPIR-V backend expects them resolved.
+	if len(module.Overrides) > 0 {
+		if err := ir.ProcessOverrides(module, nil); err != nil {
+			return nil, fmt.Errorf("override resolution error: %w", err)
+		}
+	}
+
 	// Generate SPIR-V
 	spirvOpts := spirv.Options{
 		Version: opts.SPIRVVersion,
